@@ -121,6 +121,11 @@ def prop_gridworld(case, ctx):
         ctx.event("role_rep=" + rr)
     gw = ctx.call("C20.gridworld.construct_raises", GridWorld, tile, absorbing_features=rep(list(case["absorbing"])),
                   success_prob=case["success_prob"], step_cost=case["step_cost"], discount_rate=case["gamma"], **kw)
+    if (len(rows) + len(rows[0])) % 2 == 1:
+        # the world as a worker process or a saved model sees it: after a pickle round trip (equal, not identical, states)
+        import pickle
+        gw = ctx.call("C20.gridworld.pickle_raises", lambda: pickle.loads(pickle.dumps(gw)))
+        ctx.event("after_pickle_round_trip")
     sl = check_model(ctx, "gridworld", gw)
     FR = case["feature_rewards"] if case["feature_rewards"] is not None else {"g": 0}
     feat = {}
@@ -134,6 +139,12 @@ def prop_gridworld(case, ctx):
     starts = {S(xy) for xy, ch in feat.items() if ch == "s"}
     ctx.check(set(init) == starts and all(abs(pr - 1 / len(starts)) <= 1e-12 for pr in init.values()), "C20.gridworld.initial_states_are_start_cells")
     ctx.check(bool(gw.is_absorbing(TERMINALSTATE)), "C20.gridworld.terminal_is_absorbing")
+    # ... also as the model itself lists it, and as an equal object built by the caller (states are values, not identities)
+    for t_ in [s_ for s_ in sl if s_ == TERMINALSTATE] + [frozendict(dict(TERMINALSTATE))]:
+        ctx.check(bool(gw.is_absorbing(t_)), "C20.gridworld.terminal_is_absorbing", lambda: f"an equal terminal-state object {t_!r}")
+        for a in gw.actions(t_):
+            d = {ns: pr for ns, pr in gw.next_state_dist(t_, a).items() if pr > 0}
+            ctx.check(d == {TERMINALSTATE: 1} and gw.reward(t_, a, TERMINALSTATE) == 0, "C20.gridworld.terminal_self_loop", lambda: f"{d}")
     for a in gw.actions(TERMINALSTATE):
         d = {ns: pr for ns, pr in gw.next_state_dist(TERMINALSTATE, a).items() if pr > 0}
         ctx.check(d == {TERMINALSTATE: 1}, "C20.gridworld.terminal_self_loop")
